@@ -141,7 +141,10 @@ func computeCallExpression(call *CallExpression, prependPath string, jsonHelperP
 	// If it's a function call, determine the name of helper method.
 	if call.Parameters != nil {
 		helper = _helper
-		_jsonPath = _jsonPath[:len(_jsonPath)-1]
+		if len(_jsonPath) > 0 {
+			// Empty when the path could not be parsed (err is returned below)
+			_jsonPath = _jsonPath[:len(_jsonPath)-1]
+		}
 
 		if strContains(compileTimeEvaluatedHelpers, *helper) {
 			if len(call.Parameters) > 0 {
